@@ -23,6 +23,11 @@ type shape struct {
 	pubs   []int // number of events published by each publisher task, in order
 	second bool  // a second (independent) sequential handler on the same type
 	plain  bool  // an additional non-sequential handler
+	// republish: 1 = the sequential handler, on its first event, publishes a further event of
+	// its own type with the context it was given (only for Async+Sequential: delivered back
+	// to itself on another goroutine); 2 = it publishes an event of a second type whose
+	// asynchronous context-aware handler publishes an event back to the sequential handler
+	republish int
 }
 
 type inst struct {
@@ -36,12 +41,30 @@ func (in *inst) Body() {
 	evt.Deliver = func(ti, slot, id int, ctx context.Context) {}
 	bus := eventbus.New()
 	A := bp.Types[0]
+	B := bp.Types[1]
+	pubWith := func(t *evt.TypeOps, hctx context.Context, id int) {
+		if hctx == nil {
+			hctx = context.Background()
+		}
+		t.PubCtx(bus, hctx, id)
+	}
 	mk := func(hid int) func(context.Context, int) {
-		return func(_ context.Context, id int) {
+		return func(hctx context.Context, id int) {
 			in.rec.Add("enter", hid, id, "")
+			if hid == 0 && id%100 == 0 && id < 900 {
+				switch s.republish {
+				case 1:
+					pubWith(A, hctx, 900+id/100)
+				case 2:
+					pubWith(B, hctx, 800+id/100)
+				}
+			}
 			vrt.Point()
 			in.rec.Add("exit", hid, id, "")
 		}
+	}
+	if s.republish == 2 {
+		B.SubCustom(bus, func(gctx context.Context, id int) { pubWith(A, gctx, 100+id) }, nil, evt.SubOpts{Async: true, Ctx: true})
 	}
 	A.SubCustom(bus, mk(0), nil, evt.SubOpts{Sequential: true, Async: s.async, Ctx: s.ctx})
 	if s.second {
@@ -119,6 +142,17 @@ func (in *inst) Check(res *vrt.Result) []vrt.Violation {
 		for _, id := range seen {
 			cnt[id]++
 		}
+		var extra []int
+		for t, n := range in.s.pubs {
+			if n > 0 && in.s.republish != 0 {
+				extra = append(extra, 900+(t+1))
+			}
+		}
+		for _, id := range extra {
+			if cnt[id] != 1 {
+				bad("delivery-count", fmt.Sprintf("%s sequential handler received a re-published event %d times", kindOf(in.s), cnt[id]), fmt.Sprintf("handler %d event %d", hid, id))
+			}
+		}
 		for t, n := range in.s.pubs {
 			for i := 0; i < n; i++ {
 				id := 100*(t+1) + i
@@ -173,6 +207,10 @@ func shapes(thorough bool) []shape {
 		{name: "async/one-publisher-2", async: true, pubs: []int{2}},
 		{name: "async/two-publishers", async: true, pubs: []int{2, 1}},
 		{name: "async-ctx/one-publisher-2+plain", async: true, ctx: true, plain: true, pubs: []int{2}},
+		{name: "async-ctx/self-republish", async: true, ctx: true, republish: 1, pubs: []int{1}},
+		{name: "async/self-republish-2publishers", async: true, republish: 1, pubs: []int{1, 1}},
+		{name: "sync-ctx/cascade-through-async-handler", ctx: true, republish: 2, pubs: []int{1}},
+		{name: "sync-ctx/cascade-2publishers", ctx: true, republish: 2, pubs: []int{1, 1}},
 	}
 	if thorough {
 		l = append(l,
